@@ -13,7 +13,7 @@ Everything lives under /dev/shm/pyxis-mut and is removed afterwards. /repo itsel
 """
 import json, os, shutil, subprocess, sys, time, glob
 
-REPO, VERIF, ROOT = "/repo", "/verif", "/dev/shm/pyxis-mut"
+REPO, VERIF, ROOT = "/repo", "/verif", f"/dev/shm/pyxis-mut-{os.getpid()}"
 PROPS = ["C09", "C10", "C12", "C14", "C19"]
 ENV = dict(os.environ, CARGO_NET_OFFLINE="true")
 
